@@ -546,6 +546,10 @@ impl<'r> Gen<'r> {
 
     /// Generate with required properties (d and/or u), retrying.
     fn gen_props(&mut self, want: Base, budget: usize, need_d: bool, need_u: bool, need_o: bool) -> Frag {
+        // chaos also drops the property requirements of a position now and then
+        if self.cfg.chaos_pct > 0 && self.rng.chance(self.cfg.chaos_pct, 100) {
+            return self.gen(want, budget);
+        }
         for _ in 0..8 {
             let f = self.gen(want, budget);
             if let Ok(t) = f.spec_type(self.tap()) {
